@@ -76,8 +76,9 @@ func (b *BoundedIterator) SeekToLast() {
 		// key before the end bound, but it works for now
 		b.Iterator.Seek(b.end)
 
-		// If we landed exactly at the end bound, back up one
-		if b.Iterator.Valid() && bytes.Equal(b.Iterator.Key(), b.end) {
+		// If we landed at or beyond the end bound (or ran off the end), the last
+		// key in range is the one before: back up
+		if !b.Iterator.Valid() || bytes.Compare(b.Iterator.Key(), b.end) >= 0 {
 			// We need to back up because end is exclusive
 			// This is inefficient but correct
 			b.Iterator.SeekToFirst()
@@ -113,8 +114,10 @@ func (b *BoundedIterator) Seek(target []byte) bool {
 		target = b.start
 	}
 
-	// If target is at or after end bound, the seek will fail
+	// If target is at or after end bound, the seek will fail; still move the
+	// underlying iterator so that the old position does not stay valid
 	if b.end != nil && bytes.Compare(target, b.end) >= 0 {
+		b.Iterator.Seek(target)
 		return false
 	}
 
